@@ -8,6 +8,10 @@ ids = [p["id"] for p in props]
 
 # id -> (engine, technique, level text, level note, design ref)
 CHECKS = {
+ "C08": ("E5", "bounded-exhaustive field-level deviation enumeration over valid firmware images (every 16/32/64-bit value menu at every offset of the GUID table, SEV metadata and TDVF metadata; truncations; all tiny images; thorough: pairs) on every analysis entry point, in journaling worker processes with allocation accounting and a per-case horizon",
+         "About 44k (thorough: ~1M) deviated images x 9 entry points (LaunchDigest for both products, UnsignedSnp, SevData.ExtractFromFirmware, MRTD in three modes, UnsignedTDX, the three ExtractMaterialGuestPhysicalRegions variants): menus of boundary and overflow-triggering values (2^32/12, 2^32/32, 2^63, 2^64-1, len+-1, remaining, ...) at every byte offset of the three metadata structures of a 12 KiB and a 4 KiB image, truncations, all images <=12 bytes over {00,ff}; a panic, worker death, 8 s horizon (3x confirmation at 5x) or allocation above 256 MiB + 64 x image length is a violation.",
+         "Trusted: horizon and allocation constants (legitimate cost < 20 ms / < 150 MiB with the 16 MiB cap on generated sections); single-site deviations in quick, pairs only inside the TDVF metadata in thorough; images above 12 KiB are not deviated.",
+         "DESIGN.md#c08"),
  "C07": ("E5", "bounded-exhaustive deviation enumeration (every truncation, byte and 32-bit substitution at every offset of genuine baselines, proto field removal, all tiny byte strings) on every relying-party entry point, executed in journaling worker processes with deterministic allocation accounting",
          "About 2.5M (thorough: 9M) inputs derived from genuine endorsements (plus 14 field-removal and CA-bundle variants), attestations in 11 accepted formats, certificate tables, event logs with SP800-155 events of every locator type and event payloads are fed to 12 entry points (verify.Endorsement, validator closure, SevValidate, policy/inspect consumers, extract.Attestation, validation of the decoded attestation, FromCertTable, extract.Endorsement from quote and from event-log file, CryptoAgileLog.Unmarshal + Locate with the real efivarfs reader, SP800155Event3.UnmarshalFromBytes, variable locators); a worker journals START/DONE per case so a panic, death (out of memory), horizon or allocation above 64 MiB + 64 x input length is attributed to its input; suspects are re-run alone 3 times at 5x horizon.",
          "Trusted: per-case horizon 20 s (legitimate cost < 50 ms) with 3x confirmation at 5x; allocation measured with runtime.MemStats.TotalAlloc at GOMAXPROCS=1; deviations are single-site (pairs of size fields only through the tiny-string enumeration).",
